@@ -37,6 +37,8 @@ func (g *gateLocker) Unlock() {
 	}
 }
 
+var sigbcN int
+
 type condStep struct {
 	A   string `json:"a"` // enter release signal broadcast cancel sigbc
 	W   int    `json:"w"`
@@ -129,8 +131,14 @@ func runCond(t *testing.T, steps []condStep) ([]Ev, bool, string) {
 			case "sigbc": // a Signal and a Broadcast from two goroutines at the same moment
 				r.emit(Ev{"ev": "signal"})
 				r.emit(Ev{"ev": "broadcast"})
-				go c.Signal()
-				go c.Broadcast()
+				sigbcN++
+				if sigbcN%2 == 0 { // the goroutine created last runs first: both orders
+					go c.Signal()
+					go c.Broadcast()
+				} else {
+					go c.Broadcast()
+					go c.Signal()
+				}
 			case "cancel": // also before the waiter has entered: Wait is then called with a context that has already ended
 				if st.W > 0 {
 					r.Ctx(st.W)
